@@ -21,6 +21,11 @@ The cells live in helper modules (imported here so that they register):
                  24 decades, unbalanced Kruskal / Tucker parameters, identity / orthonormal / unit-norm factors and
                  multiplicands exactly, epsilon-perturbed and merely normalised
   _c02_huge      (round 3) sparse tensors with modes longer than 2**53 and cell counts beyond 2**63 (dictionary oracle)
+  _c02_present   (round 4) the same request as other callers type it (mode numbers in int32 / uint8 / uint16 / uint64 arrays,
+                 numpy integer scalars, tuples; multiplicands read-only / negative or wide strides / F order / float32; tuple
+                 containers; optional arguments positionally; Kruskal operands holding read-only arrays), the receiver as other
+                 callers build it (float32 data, subscripts in int32 / uint8 / ..., shape as a narrow integer array, read-only
+                 buffers without a copy), the root logger at DEBUG, and the state after a request that cannot be carried out
   _c02_findings  predicates referenced by known_findings/C02.json
 """
 
@@ -38,6 +43,7 @@ from . import _c02_bool  # noqa: F401
 from . import _c02_large  # noqa: F401
 from . import _c02_special  # noqa: F401
 from . import _c02_huge  # noqa: F401
+from . import _c02_present  # noqa: F401
 from ._c02_findings import PREDICATES  # noqa: F401
 
 logging.disable(logging.WARNING)  # pyttb logs a warning per no-copy construction; not a verdict
@@ -79,7 +85,20 @@ RULE = (
     "slices of one mode spread over up to 24 decades, unbalanced Kruskal / Tucker parameters (a column of norm 1e-18 with "
     "a weight 1e+18, up to 1e-100 / 1e+100), factor matrices and multiplicands that are identity-like, orthonormal, "
     "unit-norm-but-not-orthogonal or partial permutations, exactly and perturbed by 1e-12..1e-5, unit / all-ones vectors "
-    "exactly and perturbed, exactly and nearly symmetric data for ttsv; labels special:*, large:*."
+    "exactly and perturbed, exactly and nearly symmetric data for ttsv; labels special:*, large:*.  "
+    "Round 4: (present) the ordinary case of every operation with a drawn *presentation*: mode numbers / mode lists as arrays "
+    "of int16 / int32 / int64 / uint8 / uint16 / uint32 / uint64, numpy integer scalars of those widths, tuples, lists of numpy "
+    "integers; array operands read-only, with negative or wide strides, F-ordered, in single precision; multiplicand "
+    "lists as tuples; optional arguments positionally; a Kruskal MTTKRP operand built with copy=False on read-only arrays; "
+    "root logger at DEBUG (labels pres-*); judged by the ordinary body against the ordinary reference, so two "
+    "presentations of one request are held to the same answer.  (present/holder) the receiver / second tensor as other "
+    "callers build it: dense data or sparse values in float32, subscripts in int8..uint64, shape as an array of a narrow "
+    "integer type / list / tuple of numpy integers, read-only buffers taken with copy=False, Kruskal / Tucker parameters "
+    "as read-only arrays without a copy (labels hpres-*); sptensor-roomy: modes of 9..60 so that subscripts fit uint8 / "
+    "int8 while linear indices do not.  (refused) an ill-formed request (wrong-length / length-1 / column-shaped "
+    "multiplicand, repeated / negative / out-of-range mode, mismatched sizes, lists of different lengths over extents of "
+    "1, one multiplicand too many ...) made on freshly built operands, then receiver and operands compared bit for bit "
+    "with their snapshot and the ordinary valid request made on the same receiver (labels bad-*, refused-* / carried-out)."
 )
 ASSUMPTIONS = [
     "derived states are produced through the public API only; the operations that make up a history are judged by "
@@ -90,7 +109,18 @@ ASSUMPTIONS = [
     "parameters (weights and factor matrices read from the built object), not only by the array it denotes",
     "two narrow-integer (uint8) operands are never combined: their products wrap around by NumPy's own promotion "
     "rules; a narrow-integer operand meets float64 / int64 / int32 ones",
-    "float32 data is not generated (the rounding bounds are stated for float64 arithmetic)",
+    "float32 data is generated only by the round-4 presentation cells: the values of an operand shown in single precision "
+    "are rounded to float32 in the case (the cast loses nothing, the float64 reference is the reference of what is "
+    "passed), the bound uses the single-precision unit (2**29 x the double-precision count) and nothing is compared "
+    "exactly, because a kernel may legitimately compute in the operands' precision; elsewhere data is float64",
+    "(round 4) presentations requested are the documented ones: dims / exclude_dims / collapse dims / reconstruct modes "
+    "are OneDArray (int, numpy integer, list, tuple, ndarray of any integer dtype); ttt selfdims / otherdims are 'int or "
+    "ndarray' (lists and tuples are not requested there); ttm / ttv / mttkrp take a Sequence of arrays (list or tuple); a "
+    "bare list of floats as the ttv vector, a pyttb.tensor as a ttm matrix and index samples given as Python lists to "
+    "reconstruct are outside the documented forms and not requested",
+    "(round 4) whether an ill-formed request must be refused is C19's statement, not this property's: the refused cells "
+    "record the outcome (labels refused-<Exception> / carried-out) and judge only that receiver and operands are unchanged "
+    "and that the next valid request on the same receiver gives the defining sum",
     "a mask W is given as float64 / int64 / uint8 / bool ones; a sparse W keeps its stored order (no derived history "
     "that would re-order it, and no explicitly stored zeros, whose meaning as 'ones of W' is not defined)",
     "multiplicand alignment: a list as long as the listed dims pairs multiplicand j with dims[j]; a list as long as "
